@@ -94,6 +94,26 @@ class Check:
                 base_ = base_ + "/" + nm_
                 world["nodes"].append({"path": base_, "type": "dir"})
                 world["nodes"].append({"path": base_ + "/f%d" % lv, "type": "file", "content": "x"})
+        if rng.random() < 0.03:
+            # a chain of directories far deeper than any tree the generator grows, with something at the bottom and on the way
+            base_ = tops[-1] + "/deep_chain"
+            if any(n["path"] == base_ for n in world["nodes"]):
+                base_ += "_"
+            world["nodes"].append({"path": base_, "type": "dir"})
+            for lv in range(rng.choice([40, 64, 100])):
+                base_ = base_ + "/" + rng.choice(["n", "dd", "x%d" % lv])
+                world["nodes"].append({"path": base_, "type": "dir"})
+                if lv % 16 == 7:
+                    world["nodes"].append({"path": base_ + "/mid%d" % lv, "type": "file", "content": ""})
+            world["nodes"].append({"path": base_ + "/bottom", "type": "file", "content": "b"})
+        if rng.random() < 0.002:
+            # one directory with thousands of entries
+            d_ = tops[0] + "/crowd"
+            if any(n["path"] == d_ for n in world["nodes"]):
+                d_ += "_"
+            world["nodes"].append({"path": d_, "type": "dir"})
+            for i in range(rng.choice([1500, 3000, 5000])):
+                world["nodes"].append({"path": "%s/e%05d" % (d_, i), "type": "dir" if i % 97 == 0 else "file", **({} if i % 97 == 0 else {"content": ""})})
         dirs = [n["path"] for n in world["nodes"] if n["type"] == "dir"]
         roots = []
         maxlvl = max([n["path"].count("/") for n in world["nodes"]] + [1])
@@ -111,6 +131,9 @@ class Check:
                     r["top"] = rng.choice(subs)
             r["mind"] = rng.choice([0, 0, 0, 1, 2, 3, rng.randint(0, maxlvl + 2)])
             r["maxd"] = rng.choice([0, 0, 0, 1, 2, 3, rng.randint(0, maxlvl + 2)])
+            if rng.random() < 0.04:
+                # the largest numbers the option accepts: no window border anywhere near
+                r[rng.choice(["mind", "maxd"])] = rng.choice([2 ** 31 - 1, 2 ** 31, 2 ** 32 - 1])
             r["maxword"] = rng.choice(["maxdepth", "depth"])
             r["mode"] = rng.choice(["", "bfs", "dfs", "dfs"])
             r["ign"] = rng.choice(["", "", "", "", "hg", "docker", "git", "nogit nohg", "archives", "archives"])  # no ignore file, no archive exists: must change nothing
@@ -137,6 +160,24 @@ class Check:
             for r in roots[1:]:
                 r["sp"] = {"kind": rng.choice(["updir", "abs"])}
         cls, plan = gen.gen_env(rng, world)
+        deepest = max(n["path"].count("/") for n in world["nodes"])
+        if deepest <= 12 and rng.random() < 0.08:
+            # a small descriptor table: a walk needs one open directory at a time in bfs and one per nesting level in dfs,
+            # however many directories wait to be visited
+            plan["nofile"] = rng.choice([32, 48, 64])
+            if rng.random() < 0.4 and not any(n["path"] == tops[0] + "/many" for n in world["nodes"]):
+                d_ = tops[0] + "/many"
+                world["nodes"].append({"path": d_, "type": "dir"})
+                for i in range(2 * plan["nofile"] + rng.randint(0, 20)):
+                    world["nodes"].append({"path": "%s/s%03d" % (d_, i), "type": "dir"})
+                    world["nodes"].append({"path": "%s/s%03d/in" % (d_, i), "type": "file", "content": ""})
+                    if i % 3 != 2:
+                        # ... most with a sub-directory of their own (whatever is queued for it must not pin its parent open)
+                        world["nodes"].append({"path": "%s/s%03d/sub" % (d_, i), "type": "dir"})
+                        world["nodes"].append({"path": "%s/s%03d/sub/f" % (d_, i), "type": "file", "content": ""})
+                nf = plan["nofile"]
+                cls, plan = gen.gen_env(rng, world)
+                plan["nofile"] = nf
         if rng.random() < 0.2:
             # link counts of directories as other file systems report them (1 on btrfs/FUSE, 2 on CIFS/iso9660, anything on overlays)
             v = rng.choice([1, 2, 2, 3, 7])
